@@ -52,8 +52,15 @@ KINDS = ['grf0', 'grf1', 'run', 'runk', 'jac', 'upd', 'clr', 'again', 'fail', 'o
 GLOBAL_OPS = [['cfc', None]]
 
 
+# direct evaluation of parsed expressions (ExpressionParser + eval_node): pairs that share sub-expressions but differ in
+# the relative length of their operands, in the operand order of non-commutative operators and in nesting
+EXPRS = ["(a + b)^(a*b)", "(a + b)^(a*b*r*rr)", "weight^(a + b)", "weight^(a + b + r)", "(a - b)/(r*rr)", "(r*rr)/(a - b)",
+         "sin(a*b) - a*b", "a*b - sin(a*b + r)"]
+EXPR_VALS = {'a': 0.7, 'b': 1.3, 'r': 0.45, 'rr': 2.1, 'weight': 1.6}
+
+
 def all_ops():
-    return [[k, m] for m in MODELS for k in KINDS] + GLOBAL_OPS
+    return [[k, m] for m in MODELS for k in KINDS] + GLOBAL_OPS + [['ev', i] for i in range(len(EXPRS))]
 
 
 def build(model, store):
@@ -130,6 +137,14 @@ def do_op(op, store, live):
     """execute one operation on the real code; returns its canonical observation"""
     kind, model = op
     kw = dict(step_size=0.125, verbose=False, float_precision='float64', backend='default')
+    if kind == 'ev':
+        from pyrates.backend.computegraph import ComputeGraph
+        from pyrates.backend.parser import ExpressionParser
+        cg = ComputeGraph(backend='default', float_precision='float64')
+        args = {k: {'vtype': 'constant', 'value': v, 'dtype': 'float64', 'shape': ()} for k, v in EXPR_VALS.items()}
+        args['qq'] = {'vtype': 'variable', 'value': 0.0, 'dtype': 'float64', 'shape': ()}
+        ExpressionParser(expr_str=f"qq = {EXPRS[model]}", args=args, cg=cg).parse_expr()
+        return {'value': round(float(np.asarray(cg.eval_node(cg.var_updates['non-DEs']['qq'])).reshape(-1)[0]), 10)}
     if kind == 'cfc':
         from pyrates.utility import clear_frontend_caches
         clear_frontend_caches()
@@ -256,7 +271,7 @@ def features(history, i):
     kind, model = history[i]
     f = set()
     prev = history[:i]
-    pm = {m for _, m in prev}
+    pm = {m for _, m in prev if isinstance(m, str)}
     if (model == 'B' and 'A' in pm) or (model == 'A' and 'B' in pm):
         f.add('same_operator_name_other_equations')
     if model in ('A', 'C') and ({'A', 'C'} - {model}) & pm:
